@@ -846,4 +846,35 @@ example :
     g'.cu.count = 2 ∧ nonContextualCheck cfg (sealBlock 228 g'.a) = none ∧
     unclesCheck cfg cx (sealBlock 228 g'.a) = none := by decide
 
+/-! ### the score sort key (`AncestorsScoreSortKey`), F35 (repaired in /repo ef05b33) -/
+
+open CkbVerif.Selector in
+/-- WITNESS about the code as it was (reproduced on the real PoolMap, seeded/C12/findings-round6): with stale
+    aggregates saturated to zero the order of the score index was not transitive — `kc = kq`, `kc < klo`, yet
+    `klo < kq` — so the ordered index filed `kq` under `kc`'s bucket and `get_proposals` panicked `invalid key`. -/
+theorem score_key_order_not_transitive_PreF35 :
+    let kq : Key := ⟨5000, 300, 4000, 0⟩
+    let kc : Key := ⟨5000, 300, 0, 0⟩
+    let klo : Key := ⟨100, 300, 100, 300⟩
+    kc.cmpPreF35 kq = .eq ∧ kc.cmpPreF35 klo = .lt ∧ klo.cmpPreF35 kq = .lt := by decide
+
+open CkbVerif.Selector in
+/-- repaired code, every key of an entry with positive own weight: the selected (fee, weight) pair never has
+    weight zero, so the cross-multiplied comparison is a comparison of genuine fee rates -/
+theorem score_key_pair_weight_positive (k : Key) (hw : 0 < k.weight) : 0 < k.minFeeWeight.2 := by
+  unfold Key.minFeeWeight
+  split
+  · exact hw
+  · rename_i h
+    have : k.ancWeight ≠ 0 := fun h0 => h (Or.inl h0)
+    exact Nat.pos_of_ne_zero this
+
+open CkbVerif.Selector in
+/-- the three keys of the witness under the repaired order: consistent (`klo < kc`, `klo < kq`, `kc = kq`) -/
+theorem score_key_witness_repaired :
+    let kq : Key := ⟨5000, 300, 4000, 0⟩
+    let kc : Key := ⟨5000, 300, 0, 0⟩
+    let klo : Key := ⟨100, 300, 100, 300⟩
+    kc.cmp kq = .eq ∧ klo.cmp kc = .lt ∧ klo.cmp kq = .lt := by decide
+
 end CkbVerif.C13
